@@ -475,6 +475,7 @@ def register_numpy():
     def normalize_array(x):
         if not x.shape:
             return (normalize_token(x.item()), x.dtype)
+        dtype = x.dtype
         if x.dtype.hasobject:
             try:
                 try:
@@ -494,11 +495,18 @@ def register_numpy():
             except (TypeError, UnicodeDecodeError):
                 return normalize_object(x)
         else:
+            if dtype.fields is not None:
+                from numpy.lib import recfunctions as rfn
+
+                if rfn.repack_fields(dtype, recurse=True) != dtype:
+                    # bytes that belong to no field are not part of the value
+                    # (copies leave them uninitialised): hash the packed fields
+                    x = rfn.repack_fields(x, recurse=True)
             try:
                 data = hash_buffer_hex(np.ascontiguousarray(x).ravel().view("i1"))
             except (BufferError, AttributeError, ValueError):
                 data = hash_buffer_hex(x.copy(order="C").ravel().view("i1"))
-        return (data, x.dtype, x.shape)
+        return (data, dtype, x.shape)
 
     @normalize_token.register(np.memmap)
     def normalize_mmap(mm):
